@@ -56,8 +56,13 @@ admin_api { listen "127.0.0.1:%d" }
 // ---------------------------------------------------------------- HMAC configurations
 
 func hmacConfigs(thorough bool) []*hmacCfg {
+	// overlapping rotation windows: S1 = [T0,T2)  S2 = [T1,T3)
 	s1 := secretVer{ID: "S1", Val: "v1-4e1f0c6a9d", From: tl(0), Until: tl(2)}
 	s2 := secretVer{ID: "S2", Val: "v2-b07d55e2c3", From: tl(1), Until: tl(3)}
+	// adjacent windows and an open end: A1 = [T0,T1)  A2 = [T1,T2)  A3 = [T2,inf)
+	a1 := secretVer{ID: "A1", Val: "a1-77aa01", From: tl(0), Until: tl(1)}
+	a2 := secretVer{ID: "A2", Val: "a2-88bb02", From: tl(1), Until: tl(2)}
+	a3 := secretVer{ID: "A3", Val: "a3-99cc03", From: tl(2)}
 	def := func(c hmacCfg) *hmacCfg {
 		c.SigH, c.TsH, c.NonceH, c.Tol = "X-Signature", "X-Timestamp", "X-Nonce", 5*time.Minute // documented defaults
 		c.Name += "/default-names"
@@ -68,14 +73,23 @@ func hmacConfigs(thorough bool) []*hmacCfg {
 		c.Name += "/custom-names"
 		return &c
 	}
+	cus1s := func(c hmacCfg) *hmacCfg {
+		c.SigH, c.TsH, c.NonceH, c.Tol, c.Custom = "Webhook-Signature", "Webhook-Timestamp", "Webhook-Id", time.Second, true
+		c.Name += "/custom-names-tol-1s"
+		return &c
+	}
 	base := hmacCfg{Route: "/a", Methods: []string{"POST", "PUT"}}
-	inline, refs, mixed := base, base, base
+	inline, refs, mixed, adjacent := base, base, base, base
 	inline.Name, inline.Inline = "inline", []string{"k-inline-93c1"}
 	refs.Name, refs.Refs = "refs", []secretVer{s1, s2}
 	mixed.Name, mixed.Inline, mixed.Refs = "mixed", []string{"k-inline-93c1"}, []secretVer{s1}
-	out := []*hmacCfg{def(inline), cus(inline), def(refs), cus(refs)}
+	adjacent.Name, adjacent.Refs = "adjacent", []secretVer{a1, a2, a3}
+	// pairs (2i, 2i+1) are each other's "other header-name configuration"
+	out := []*hmacCfg{def(inline), cus(inline), def(refs), cus(refs), def(mixed), cus(mixed)}
 	if thorough {
-		out = append(out, def(mixed), cus(mixed))
+		out = append(out, def(adjacent), cus(adjacent), cus1s(inline), def(inline), cus1s(refs), def(refs))
+		// the last two pairs repeat a default-names configuration only as the partner of the 1 s one
+		out[9].Name, out[11].Name = "", ""
 	}
 	return out
 }
@@ -118,12 +132,11 @@ func (c *hmacCfg) dsl(slot int) string {
 type point struct {
 	Label string
 	S     int64
-	Probe bool // every signer's secret is valid here with a margin: the base request is a completeness probe
 }
 
 func (c *hmacCfg) points() []point {
 	if len(c.Refs) == 0 {
-		return []point{{"E+1h", epoch.Add(time.Hour).Unix(), true}}
+		return []point{{"E+1h", epoch.Add(time.Hour).Unix()}}
 	}
 	// every end-point of every validity window, -1 s / +0 / +1 s
 	seen := map[int64]bool{}
@@ -144,27 +157,28 @@ func (c *hmacCfg) points() []point {
 				continue
 			}
 			seen[s] = true
-			p := point{Label: fmt.Sprintf("T%d%+d", i, d), S: s, Probe: true}
-			for _, v := range c.Refs { // probe only where every version is valid at S-1, S and S+1
-				for _, x := range []int64{s - 1, s, s + 1} {
-					if x < v.From.Unix() || (!v.Until.IsZero() && x >= v.Until.Unix()) {
-						p.Probe = false
-					}
-				}
-			}
-			out = append(out, p)
+			out = append(out, point{Label: fmt.Sprintf("T%d%+d", i, d), S: s})
 		}
 	}
 	return out
 }
 
+// comfortable: the signer's secret is valid at S-1, S and S+1 (documented window semantics),
+// so the unmodified request at clock = S is a completeness probe.
+func (sg signerT) comfortable(s int64) bool {
+	if sg.From.IsZero() {
+		return true // inline secret: no window
+	}
+	return s-1 >= sg.From.Unix() && (sg.Until.IsZero() || s+1 < sg.Until.Unix())
+}
+
 func (c *hmacCfg) signers() []signerT {
 	var out []signerT
 	for _, s := range c.Inline {
-		out = append(out, signerT{"inline", []byte(s)})
+		out = append(out, signerT{Label: "inline", Key: []byte(s)})
 	}
 	for _, v := range c.Refs {
-		out = append(out, signerT{v.ID, []byte(v.Val)})
+		out = append(out, signerT{Label: v.ID, Key: []byte(v.Val), From: v.From, Until: v.Until})
 	}
 	return out
 }
@@ -181,7 +195,13 @@ func offsets(tol time.Duration, thorough bool) []offset {
 			offset{"-tol-1s", -tol - time.Second}, offset{"+tol+1s", tol + time.Second})
 	}
 	sort.SliceStable(out, func(i, j int) bool { return out[i].D < out[j].D })
-	return out
+	uniq := out[:0]
+	for i, o := range out {
+		if i == 0 || o.D != out[i-1].D {
+			uniq = append(uniq, o)
+		}
+	}
+	return uniq
 }
 
 // ---------------------------------------------------------------- executing one case
@@ -494,6 +514,40 @@ func renonce(c *reqCase) *reqCase {
 	return &c2
 }
 
+type replayT struct {
+	Family     string `json:"family"`
+	Config     string `json:"config"`
+	DSL        string `json:"dsl"`
+	Route      string `json:"route"`
+	Now        string `json:"virtual_now"`
+	Where      string `json:"where"`
+	Class      string `json:"class"`
+	Detail     string `json:"detail"`
+	Method     string `json:"method"`
+	Target     string `json:"target"`
+	Headers    []hdr  `json:"headers"`
+	BodyB64    string `json:"body_base64"`
+	RawB64     string `json:"raw_request_base64"`
+	Forward    string `json:"auth_service_behaviour,omitempty"`
+	FwdMode    string `json:"fwd_mode,omitempty"`
+	FwdStatus  int    `json:"fwd_status,omitempty"`
+	RefAccepts bool   `json:"reference_accepts"`
+	Allowed    []int  `json:"statuses_the_statement_allows"`
+	Probe      bool   `json:"probe"`
+	Got        int    `json:"observed_status"`
+	Kind       string `json:"failure"`
+}
+
+func (e *env) replayObj(c *reqCase, refAccept bool, allowed []int, v verdict) replayT {
+	rp := replayT{Family: e.family, Config: e.cfgName, DSL: e.dsl, Route: e.route, Now: time.Now().UTC().Format(time.RFC3339Nano), Where: e.where,
+		Class: c.Class, Detail: c.Detail, Method: c.Method, Target: c.Target, Headers: c.Hdrs, BodyB64: base64.StdEncoding.EncodeToString(c.Body),
+		RawB64: base64.StdEncoding.EncodeToString(rawRequest(c)), RefAccepts: refAccept, Allowed: allowed, Probe: c.Probe, Got: v.Status, Kind: v.Kind}
+	if e.fwd != nil {
+		rp.Forward, rp.FwdMode, rp.FwdStatus = e.fwd.b.String(), e.fwd.b.Mode, e.fwd.b.Status
+	}
+	return rp
+}
+
 // session: the application instance(s) of one bubble.
 type session struct {
 	r        *runner.Run
@@ -593,6 +647,9 @@ func runHMAC(t *testing.T, r *runner.Run, deadline time.Time) {
 	cfgs := hmacConfigs(r.Thorough())
 	var jobs []hmacJob
 	for ci, cfg := range cfgs {
+		if cfg.Name == "" {
+			continue // only the partner of its neighbour
+		}
 		for _, pt := range cfg.points() {
 			for _, off := range offsets(cfg.Tol, r.Thorough()) {
 				jobs = append(jobs, hmacJob{len(jobs), cfg, cfgs[ci^1], pt, off, -1})
@@ -652,7 +709,7 @@ func hmacBubble(t *testing.T, r *runner.Run, slot int, j hmacJob) {
 			if len(cfg.Refs) > 0 {
 				e.where = fmt.Sprintf("ts=%s:signer=%s:clock=ts%s", pt.Label, sg.Label, off.Label)
 			}
-			g := &hmacGen{cfg: cfg, other: j.other, sg: sg, S: pt.S, full: r.Thorough(), probe: pt.Probe && off.D == 0, nonce: freshNonce, pairsPart: j.pairsPart}
+			g := &hmacGen{cfg: cfg, other: j.other, sg: sg, S: pt.S, full: r.Thorough(), probe: off.D == 0 && sg.comfortable(pt.S), nonce: freshNonce, pairsPart: j.pairsPart}
 			cases := g.all()
 			now := time.Now()
 			baseValid := hmacAccepts(cfg, cases[0], now)
@@ -1025,6 +1082,10 @@ func runReplay(t *testing.T, r *runner.Run, path string) {
 		if rp.FwdMode != "" {
 			e.fwd = &fwdRT{b: fwdBehaviour{rp.FwdMode, rp.FwdStatus}}
 			s.onBoot = func(a *app.VerifApp) { a.VerifForwardAuthClient(&http.Client{Transport: e.fwd}) }
+			s.onBoot(s.a)
+		}
+		if rp.Family == "combined" {
+			s.onBoot = func(a *app.VerifApp) { a.VerifForwardAuthClient(&http.Client{Transport: &apiKeyRT{}}) }
 			s.onBoot(s.a)
 		}
 		v := e.evalOnce(c, rp.RefAccepts, rp.Allowed)
